@@ -73,6 +73,8 @@ def run(ctx):
                 t['FuelModel'] = dict(FUEL_MODEL)
         shaped_power(rng, case, shape)
         d = str(ctx.work / ("p%d" % ci))
+        if ci % 2 == 1:
+            gi.random_setup_options(rng, case)
         try:
             inp, r = gi.build_reactor(case, d)
         except SystemExit:
